@@ -59,11 +59,15 @@ func C17(run *mon.Run) {
 			sk1v, sk2v := skFromInt(k1), skFromInt(k2)
 			pk1, pk2 := sk1v.PublicKey(), sk2v.PublicKey()
 			kk1, kk2 := k1, k2
+			// (the identity key comes from a different producer each time: constant, decoded, aggregated,
+			// removed, public key of a zero private key)
+			idList := identityKeys(r)
+			idA, idB := idList[pi%len(idList)].pk, idList[(pi/3+1)%len(idList)].pk
 			switch relation {
 			case "identity-left":
-				pk1, kk1 = idPk, big.NewInt(0)
+				pk1, kk1 = idA, big.NewInt(0)
 			case "identity-right":
-				pk2, kk2 = idPk, big.NewInt(0)
+				pk2, kk2 = idB, big.NewInt(0)
 			case "identity-both":
 				pk1, kk1, pk2, kk2 = idPk, big.NewInt(0), idPk, big.NewInt(0)
 				if pi%36 >= 18 {
